@@ -145,6 +145,9 @@ func (cuckooFilter *CuckooFilterRedis) Insert(data []byte, destructive bool) boo
 				cuckooFilter.incrLength()
 				return true
 			}
+			index = newIndex
+			indexKey = newIndexKey
+			currFingerPrint = prevFingerPrint
 		}
 		if !destructive {
 			for i := len(items) - 1; i >= 0; i-- {
